@@ -258,6 +258,10 @@ theorem quadratic_subgrad (a : List α) (A : List (List α)) (x z : List α) (n 
 theorem maxq_subgrad (x z : List α) (hne : x ≠ []) (hl : z.length = x.length) :
     maxqF z ≥ maxqF x + dot (maxqG x) (vsub z x) := maxq_aux x z hne hl
 
+/-- MAXHILB `max_i |Σ_j x_j / (i + j + 1)|` with the signed row of the first maximal entry -/
+theorem maxhilb_subgrad (x z : List α) (hne : x ≠ []) (hl : z.length = x.length) :
+    maxhilbF z ≥ maxhilbF x + dot (maxhilbG x) (vsub z x) := maxhilb_aux x z hne hl
+
 /-- chained LQ: `Σ_i max(v1, v2)(x_i, x_{i+1})` with the branch rule `v2 > v1` -/
 theorem chained_lq_subgrad (x z : List α) (hl : z.length = x.length) :
     chainedLqF z ≥ chainedLqF x + dot (chainedLqG x) (vsub z x) :=
@@ -376,7 +380,7 @@ theorem tangent_hasDerivAt (t o : ℝ) : HasDerivAt (fun o => tangentV t o) (tan
 
 /-- objects whose convexity inequality is a theorem above (about their model) -/
 def provenConvex : List Obj := [
-  .fn_maxq, .fn_chained_lq, .fn_chained_cb3I, .fn_chained_cb3II, .fn_trid, .fn_kinks, .fn_sargan, .fn_sphere, .fn_zakharov,
+  .fn_maxq, .fn_maxhilb, .fn_chained_lq, .fn_chained_cb3I, .fn_chained_cb3II, .fn_trid, .fn_kinks, .fn_sargan, .fn_sphere, .fn_zakharov,
   .fn_quadratic, .fn_exponential, .fn_chung_reynolds, .fn_axis_ellipsoid, .fn_schumer_steiglitz, .fn_rotated_ellipsoid,
   .fn_geometric_optimization,
   .loss_mae, .loss_mse, .loss_m_hinge, .loss_s_hinge, .loss_m_squared_hinge, .loss_s_squared_hinge, .loss_s_classnll,
@@ -387,7 +391,6 @@ def provenConvex : List Obj := [
 /-- objects flagged convex whose inequality is only tested by the search (with the reason) -/
 def testedOnly : List (Obj × String) := [
   (.fn_maxquad, "max of K quadratic forms whose matrices are filled with exp/cos/sin formulas: not modelled"),
-  (.fn_maxhilb, "max_i |W_i·x| with the Hilbert matrix: modelled (value, gradient correspond), sub-gradient proof not done"),
   (.fn_mse_ridge_1, "elastic-net prototype = loss∘affine + l1 + ridge over synthetic data: follows from mse_subgrad, affine_comp_subgrad, sum_subgrad, ridge_subgrad_mu; the instance is not modelled"),
   (.fn_mse_ridge_100, "as mse+ridge[1]"), (.fn_mse_ridge_10000, "as mse+ridge[1]"), (.fn_mse_ridge_1e_06, "as mse+ridge[1]"),
   (.fn_mse_lasso_1, "as mse+ridge[1]"), (.fn_mse_lasso_100, "as mse+ridge[1]"), (.fn_mse_lasso_10000, "as mse+ridge[1]"),
